@@ -47,6 +47,8 @@ def check(ctx, report):
     report.rule('C11.R3', 'no local-time API anywhere in the package; timestamp composer via timegm/utctimetuple')
     report.rule('C11.R4', 'flags: intersect on parse, OR on compose, mirrored shifts')
     report.rule('C11.R5', 'timestamp sentinel has the field width on both sides')
+    fields_written_as_stored(ctx, report)
+    report.floor('C11.R8', 20, 'timestamp fields')
     pm = model.modules.get('cryptoparser.common.parse')
     if pm is None:
         report.error('C11: cryptoparser/common/parse.py vanished')
@@ -167,6 +169,34 @@ def epoch_conversion(ct):
         if not ok:
             return 'calendar.timegm is applied to %s: the fields of a time zone aware value are not converted to UTC first (utctimetuple())' % ast.unparse(a)
     return None
+
+
+def fields_written_as_stored(ctx, report, RULE='C11.R8', kinds=('ts',), modules=None,
+                             title='timestamp fields: the composer hands the stored attribute to the primitive, which alone decides the sentinel'):
+    """The primitives are exact (R1, R5), a field is exact only if the value of the attribute is what reaches them: a composer that
+    writes ``CONSTANT if self.attr is None else self.attr`` never writes the sentinel the parser turns back into None (or writes a
+    constant for a value the parser stores as read).  The binding comparison of C01.R2 finds such positions; here the ones of the
+    given element kinds / modules are reported."""
+    from ..compare import compare_class
+    from .c01 import classify, diff_key
+    report.rule(RULE, title)
+    n = 0
+    for c in ctx.model.concrete_parsables():
+        if modules is not None and c.module.name not in modules:
+            continue
+        if classify(ctx, c) not in ('binary', 'mixed'):
+            continue
+        try:
+            cmpn = compare_class(c, ctx.canon)
+        except Exception:      # pylint: disable=broad-except
+            continue        # C01.R1 reports what it cannot derive
+        n += sum(1 for a, b in cmpn.pairs if kinds is None or a.kind in kinds or b.kind in kinds)
+        for d in cmpn.diffs:
+            if d.kind == 'binding' and 'in place of attribute' in d.detail and d.a is not None and d.b is not None and \
+                    (kinds is None or d.a.kind in kinds or d.b.kind in kinds):
+                report.add(RULE, '%s@%s' % (c.construct, diff_key(d)), d.detail)
+    report.count(RULE, n)
+    return n
 
 
 def numeric_array_tabulation(ctx, report, pf, cf, formats, RULE='C11.R1'):
